@@ -105,7 +105,7 @@ def loop_order(node):
     return {id(n): i for i, n in enumerate(loops)}
 
 
-def verify_case(world, entry, case, feas_timeout=2000):
+def verify_case(world, entry, case, feas_timeout=400):
     rep = FunctionReport(entry.qualname, case.name)
     t0 = time.time()
     try:
